@@ -255,7 +255,7 @@ func c35DupCause(x *execCtx, sch *vrt.Sched, img *vos.FS, bc, ac map[string]int)
 			who := "wal-writer-loop"
 			for _, op := range x.dev.Log() {
 				if op.Kind == vos.OpWrite && op.Path == p && op.Off <= int64(m.Off) && int64(m.Off) < op.Off+int64(len(op.Data)) {
-					if op.Tid < len(sch.Threads) && strings.HasPrefix(sch.Threads[op.Tid].Name, "W") {
+					if op.Tid < len(sch.Threads) && (sch.Threads[op.Tid].Name == "W1" || sch.Threads[op.Tid].Name == "W2") {
 						who = "inline-flush-by-writer"
 					}
 				}
